@@ -181,3 +181,27 @@ def enum_table(src, enum_name):
             except Exception:
                 out[n.targets[0].id] = U(n.value)
     return out
+
+
+_ALL_ENUMS = {}
+
+
+def all_enum_tables(src):
+    """{enumeration class name: {member: folded value}} for every class of kmip/core/enums.py with simple member assignments"""
+    key = id(src)
+    if key not in _ALL_ENUMS:
+        t = src.tree(ENUMS)
+        out = {}
+        for c in t.body:
+            if isinstance(c, ast.ClassDef):
+                mem = {}
+                for n in c.body:
+                    if isinstance(n, ast.Assign) and len(n.targets) == 1 and isinstance(n.targets[0], ast.Name):
+                        try:
+                            mem[n.targets[0].id] = ast.literal_eval(n.value)
+                        except Exception:
+                            mem[n.targets[0].id] = U(n.value)
+                if mem:
+                    out[c.name] = mem
+        _ALL_ENUMS[key] = out
+    return _ALL_ENUMS[key]
